@@ -122,6 +122,15 @@ func ruleC17(c *Ctx, r *Report) {
 			found := false
 			allInstrs(mc.Fn.(*ssa.Function), func(i ssa.Instruction) {
 				if cc := callCommonOf(i); cc != nil && calleeKey(cc) == "os.Remove" {
+					// a removal that runs only while a panic unwinds (behind recover() != nil)
+					// does nothing for an ordinary error return
+					for _, f := range factsAt(i.Block()) {
+						if x, neq, ok := nilCompare(f.Cond); ok {
+							if rc, ok := x.(*ssa.Call); ok && calleeKey(&rc.Call) == "builtin recover" && neq == f.Pol {
+								return
+							}
+						}
+					}
 					found = true
 				}
 			})
